@@ -27,7 +27,7 @@ WHITE_BOX = ["PCACD._change_score (score history; decisions and num_pcs are comp
 
 def scenarios(tier):
     k = 1 if tier == "quick" else 8
-    return [("stream", 170 * k), ("repeat", 50 * k)]
+    return [("stream", 300 * k), ("repeat", 80 * k)]
 
 
 def gen(rng, scenario, tier):
